@@ -56,6 +56,8 @@ def coq_ev(ev):
     k = ev[0]
     if k in ('fail', 'sdown', 'sup', 'add', 'rem'):
         return '%s %d' % ({'fail': 'EFail', 'sdown': 'EStatusDown', 'sup': 'EStatusUp', 'add': 'EAdd', 'rem': 'ERemove'}[k], ev[1])
+    if k == 'setign':
+        return 'ESetIgn %d %s' % (ev[1], 'true' if ev[2] else 'false')
     if k == 'pstart':
         return 'EProbeStart %d' % ev[1]
     if k == 'pfinish':
@@ -98,7 +100,8 @@ class Oracle(object):
         """returns [(key, message, theorem)]"""
         cfg, H = self.cfg, self.H
         out = []
-        ign = [x == 'ign' for x in cfg['hosts']]
+        neps = cfg['nhosts']
+        ign = [(h % neps) in H.ignored for h in range(len(snap['hosts']))]      # the policy's CURRENT answer
         timers = [t[1] for t in snap['timers'] if t[0] == 'recon'] + list(snap['probes'])     # scheduled or attempt in flight
         if self.fired is not None and self.fired_host_removed:
             hid = snap['recons'][self.fired][0]
@@ -112,16 +115,23 @@ class Oracle(object):
             if rid not in timers and not snap['recons'][rid][1]:
                 self.stopped.add(rid)       # schedule exhausted or authentication failure
         quiet = not snap['queue']
-        for h in range(cfg['nhosts']):
+        for h in range(len(snap['hosts'])):
             hs = snap['hosts'][h]
             if hs['present'] == 0:
                 continue
             act = [r for r, (rh, c) in enumerate(snap['recons']) if rh == h and not c and r in timers]
             if len(act) > 1:
                 out.append(('two-live-reconnectors', 'host %d has two live reconnectors %r' % (h, act), 'C25_single_reconnector'))
+            if hs['present'] == 1 and hs['is_up'] == 1 and hs['reg'] >= 0 and not hs['reg_cancelled'] and hs['reg'] in timers:
+                cls = 'concurrent-up-and-add' if self.overlap(h) else 'other'
+                out.append(('up-with-live-reconnector.' + cls, 'host %d is marked up but its reconnector %d is still registered and live' % (h, hs['reg']),
+                            'C25_up_clears_reconnector'))
             if hs['present'] == 2 and (act or hs['reg'] >= 0):
                 out.append(('removed-host-has-reconnector', 'removed host %d has a live/registered reconnector' % h, 'C25_removed_never_reconnected'))
-            if quiet and hs['present'] == 1 and hs['is_up'] == 0 and not ign[h] and not self.pool_auth:
+            # the two liveness clauses are read for hosts whose distance is fixed (the statement's events are failures, status and
+            # topology events; the driver only learns of a changed distance at the next of those)
+            fixed = (h % neps) not in H.ign_changed
+            if fixed and quiet and hs['present'] == 1 and hs['is_up'] == 0 and not ign[h] and not self.pool_auth:
                 r = hs['reg']
                 bad = None
                 if r < 0:
@@ -133,7 +143,7 @@ class Oracle(object):
                 if bad:
                     cls = 'discounted-down' if h in H.discounted_nonup else 'other'
                     out.append(('down-without-reconnector.' + cls, 'host %d is down, executor idle, and has %s' % (h, bad), 'C25_down_has_reconnector'))
-            if quiet and hs['present'] == 1 and hs['is_up'] == 1 and not ign[h] and any(p == 0 for p in hs['pools']):
+            if fixed and quiet and hs['present'] == 1 and hs['is_up'] == 1 and not ign[h] and any(p == 0 for p in hs['pools']):
                 cls = 'concurrent-up-and-add' if self.overlap(h) else 'other'
                 out.append(('up-without-pool.' + cls, 'host %d is up, executor idle, pools per session %r' % (h, hs['pools']), 'C25_up_has_pools'))
             pu = self.prev['hosts'][h].get('is_up') if self.prev['hosts'][h]['present'] else None
@@ -154,7 +164,7 @@ class Oracle(object):
     def track_overlap(self, ev, snap):
         if not hasattr(self, '_ov'):
             self._ov = set()
-        for h in range(self.cfg['nhosts']):
+        for h in range(len(snap['hosts'])):
             hs = snap['hosts'][h]
             if hs['present'] and hs['handling'] and any(t[0] == 'addpool' and t[1] == h and t[3] == 1 for t in snap['queue']):
                 self._ov.add(h)
